@@ -266,7 +266,7 @@ def items(md):
     return [[k, v if isinstance(v, str) else v.hex()] for k, v in md.items()] if md is not None else None
 
 
-async def client_call(channel, spec, rec):
+async def client_call(channel, spec, rec, md_obj=None):
     card = CARDS[spec['card']]
     msgs = [bytes.fromhex(h) for h in spec['req']]
     s = spec.get('strike') or {}
@@ -275,7 +275,8 @@ async def client_call(channel, spec, rec):
         if spec.get('start'):
             await asyncio.sleep(spec['start'])
         async with channel.request(spec['path'], card, bytes, bytes, timeout=spec.get('timeout'),
-                                   metadata=[tuple(x) for x in spec['md']]) as st:
+                                   metadata=(md_obj if md_obj is not None
+                                             else [tuple(x) for x in spec['md']])) as st:
             delays = spec.get('req_delays') or [0] * len(msgs)
             if card.client_streaming:
                 if not msgs:
@@ -1043,7 +1044,186 @@ def run_slots(scn, only=None):
     return out
 
 
-RUNNERS = {'client': run_client, 'server': run_server, 'link': run_link, 'slots': run_slots}
+# ---- calls created from ONE shared metadata object, with listeners that edit event.metadata -------------
+
+SHARED_KINDS = ['dict', 'pairs', 'multidict', 'cimultidict']
+
+
+def gen_shared(rng):
+    k = rng.choice([2, 3, 3, 4, 5])
+    calls = []
+    for i in range(k):
+        c = gen_call_common(rng, i, ['task-cancel', 'handler-exc'], 0.15)
+        tag = c['tag']
+        if not c['req']:
+            c['req'] = [payload(rng, tag, 'q', 0).hex()]
+        c['status'] = 0
+        c['timeout'] = None
+        c['raise'] = None
+        if c['strike'] and c['strike']['kind'] == 'handler-exc':
+            c['raise'] = 'ValueError'
+            c['raise_after'] = 1
+        if c['strike'] and c['strike']['kind'] == 'task-cancel':
+            c['strike']['at'] = rng.choice([0, 0.125, 0.5, 1.0])
+        c['start'] = rng.choice([0, 0, 0, 0.125])
+        # how long each listener awaits between editing event.metadata and returning
+        c['d_req'] = rng.choice([0, 0.125, 0.25, 0.5])
+        c['d_im'] = rng.choice([0, 0.125, 0.25, 0.5])
+        c['d_tm'] = rng.choice([0, 0.125, 0.25, 0.5])
+        # what each side must see for this call, and nothing of anybody else
+        c['md'] = [['x-app', 'default'], ['x-call-id', tag], ['x-seen', tag]]
+        c['im'] = [['x-app-im', 'default'], ['x-im-id', tag]]
+        c['tm'] = [['x-app-tm', 'default'], ['x-tm-id', tag]]
+        calls.append(c)
+    return {'end': 'shared', 'calls': calls, 'kind': rng.choice(SHARED_KINDS),
+            'server_kind': rng.choice(SHARED_KINDS), 'cut_seed': rng.randint(0, 10 ** 9),
+            'cut_mode': rng.choice(['none', 'mixed'])}
+
+
+def shared_object(kind, pairs):
+    from multidict import MultiDict, CIMultiDict
+    if kind == 'dict':
+        return dict(pairs)
+    if kind == 'pairs':
+        return list(pairs)
+    return (MultiDict if kind == 'multidict' else CIMultiDict)(pairs)
+
+
+def frozen(obj):
+    return repr(sorted(obj.items()) if hasattr(obj, 'items') else list(obj)), type(obj).__name__
+
+
+def run_shared(scn, only=None):
+    import random
+    from grpclib.client import Channel, UnaryUnaryMethod
+    from grpclib.server import Server
+    from grpclib.events import listen, SendRequest, SendInitialMetadata, SendTrailingMetadata
+    from grpclib.const import Status
+    calls = scn['calls']
+    idxs = [only] if only is not None else list(range(len(calls)))
+    by_tag = {calls[i]['tag']: calls[i] for i in idxs}
+    out = {'calls': {}, 'fresh': None, 'changed': []}
+    logs = {}
+    crng = random.Random(scn['cut_seed'])
+    # the application-wide defaults every call is created from
+    req_md = shared_object(scn['kind'], [('x-app', 'default'), ('x-call-id', 'unset')])
+    im_md = shared_object(scn['server_kind'], [('x-app-im', 'default'), ('x-im-id', 'unset')])
+    tm_md = shared_object(scn['server_kind'], [('x-app-tm', 'default'), ('x-tm-id', 'unset')])
+    before = [frozen(o) for o in (req_md, im_md, tm_md)]
+    ctag, htag = {}, {}                         # task -> tag, on either side
+
+    def cutter(data):
+        if scn['cut_mode'] == 'none' or len(data) < 2:
+            return None
+        return [crng.randint(1, len(data) - 1) for _ in range(crng.choice([0, 1, 2, 5]))]
+
+    async def on_send_request(event):
+        tag = ctag.get(asyncio.current_task())
+        if tag is None:
+            return
+        event.metadata['x-call-id'] = tag
+        if by_tag[tag]['d_req']:
+            await asyncio.sleep(by_tag[tag]['d_req'])
+
+    async def on_send_request_2(event):
+        tag = ctag.get(asyncio.current_task())
+        if tag is not None:
+            event.metadata.add('x-seen', tag)
+
+    def server_listener(key, delay_key):
+        async def cb(event):
+            tag = htag.get(asyncio.current_task())
+            if tag is None:
+                return
+            event.metadata[key] = tag
+            if by_tag[tag][delay_key]:
+                await asyncio.sleep(by_tag[tag][delay_key])
+        return cb
+
+    async def handle(stream):
+        first = await stream.recv_message()
+        tag = first.split(b'-', 1)[0].decode() if first else None
+        spec = by_tag.get(tag)
+        log = logs.setdefault(tag, {'md': None, 'msgs': [], 'exc': None, 'runs': 0})
+        log['runs'] += 1
+        log['md'] = items(stream.metadata)
+        if spec is None:
+            await stream.send_message(b'fresh-reply')
+            return
+        htag[asyncio.current_task()] = tag
+        try:
+            log['msgs'].append(first.hex())
+            if spec['card'][0] == 'S':
+                async for m in stream:
+                    log['msgs'].append(m.hex())
+            if spec.get('raise'):
+                raise ValueError('handler failed')
+            await stream.send_initial_metadata(metadata=im_md)
+            for r in spec['resp']:
+                await stream.send_message(bytes.fromhex(r))
+            await stream.send_trailing_metadata(status=Status.OK, metadata=tm_md)
+        except BaseException as e:              # noqa
+            log['exc'] = exc_name(e)
+            raise
+
+    svc = Service('v.S', {'UU': (handle, 'UU'), 'US': (handle, 'US'), 'SU': (handle, 'SU'),
+                          'SS': (handle, 'SS'), 'Fresh': (handle, 'UU')})
+    with vloop.session() as loop:
+        server = Server([svc], codec=RawCodec())
+        channel = Channel(codec=RawCodec())
+        listen(channel, SendRequest, on_send_request)
+        listen(channel, SendRequest, on_send_request_2)
+        listen(server, SendInitialMetadata, server_listener('x-im-id', 'd_im'))
+        listen(server, SendTrailingMetadata, server_listener('x-tm-id', 'd_tm'))
+        state = {'connects': 0, 'recs': []}
+
+        async def create():
+            state['connects'] += 1
+            cp = channel._protocol_factory()
+            sp = server._protocol_factory()
+            link = wire.Link(loop, cp, sp, cutter)
+            sp.connection_made(link.tb)
+            cp.connection_made(link.ta)
+            state['recs'] = [Recorder(cp, 'C'), Recorder(sp, 'S')]
+            return cp
+        channel._create_connection = create
+        rr = {i: new_rec() for i in idxs}
+        tasks = {}
+        for i in idxs:
+            tasks[i] = loop.create_task(client_call(channel, calls[i], rr[i], md_obj=req_md))
+            ctag[tasks[i]] = calls[i]['tag']
+            s = calls[i].get('strike')
+            if s and s['kind'] == 'task-cancel':
+                loop.call_later(s['at'], tasks[i].cancel)
+        loop.run_quiet(100)
+        for i in idxs:
+            r = rr[i]
+            if not r['done']:
+                r['exc'] = 'PENDING'
+            log = logs.get(calls[i]['tag']) or {'md': None, 'msgs': [], 'exc': None, 'runs': 0}
+            out['calls'][i] = {'exc': r['exc'], 'im': r['im'], 'msgs': r['msgs'], 'tm': r['tm'], 'handler': log}
+        for name, o, b in zip(('request metadata', 'initial metadata', 'trailing metadata'),
+                              (req_md, im_md, tm_md), before):
+            if frozen(o) != b:
+                out['changed'].append(name)
+        m = UnaryUnaryMethod(channel, '/v.S/Fresh', bytes, bytes)
+        ft = loop.create_task(m(b'fresh', metadata=[('x-call', 'fresh')]))
+        loop.run_quiet(20)
+        o = vloop.outcome(ft)
+        out['fresh'] = 'ok' if o == ('ok', b'fresh-reply') else (exc_name(o[1]) if o[0] == 'exc' else o[0])
+        out['connects'] = state['connects']
+        out['recs'] = state['recs']
+        out['finals'] = [r.final() for r in state['recs']]
+        try:
+            channel.close()
+        except Exception:
+            pass
+        loop.run_quiet(1)
+    return out
+
+
+RUNNERS = {'client': run_client, 'server': run_server, 'link': run_link, 'slots': run_slots,
+           'shared': run_shared}
 
 
 # ---- expectations: "each receives exactly its own metadata, messages and status" ---------------------
@@ -1196,19 +1376,22 @@ def check_scenario(ctx, res, scn, pending):
         if not struck:
             got = mux['calls'][i]
             bad = []
-            if end in ('client', 'link', 'slots'):
+            if end in ('client', 'link', 'slots', 'shared'):
                 bad += expect_client_side(c, got)
             if end in ('client', 'slots'):
                 want = b''.join(P.grpc_frame(bytes.fromhex(m)) for m in c['req']).hex()
                 if got['peer_data'] != want or got['peer_md'] != c['md']:
                     bad.append('request as seen by the peer')
-            if end in ('server', 'link'):
+            if end in ('server', 'link', 'shared'):
                 bad += expect_server_side(c, got)
             if bad:
                 fail('call %d (%s, not struck) did not get exactly its own data: %s' % (i, c['card'], ', '.join(bad)),
                      'wrong-content', got, strikes=kinds, card=c['card'], fields=sorted(bad)[:3])
         if solo.get('fresh') != 'ok':
             fail('fresh call after a solo run failed', 'solo-fresh-failed', solo.get('fresh'), card=c['card'])
+    if mux.get('changed'):
+        fail('the caller\'s own metadata object was modified: %s' % ', '.join(mux['changed']),
+             'caller-object-modified', mux['changed'], objects=mux['changed'])
     if mux['fresh'] != 'ok':
         fail('the connection does not serve a fresh call afterwards: %s' % (mux['fresh'],),
              'fresh-call-failed', mux['fresh'], strikes=kinds)
@@ -1230,7 +1413,7 @@ def check_scenario(ctx, res, scn, pending):
     # ---- correspondence: the recorded inputs through the model
     if mux.get('stuck'):
         res.count('slots:server could not go on (calls %s blocked)' % (len(mux['stuck']),))
-    sides = {'client': ['C'], 'server': ['S'], 'link': ['C', 'S'], 'slots': ['C']}[end]
+    sides = {'client': ['C'], 'server': ['S'], 'link': ['C', 'S'], 'slots': ['C'], 'shared': ['C', 'S']}[end]
     for r, side in zip(recs, sides):
         lines, final = model_lines(r, side)
         for kind, info, line in lines:
@@ -1256,7 +1439,7 @@ def settle(ctx, res, pending):
 
 
 GENS = {'client': gen_client, 'server': gen_server, 'link': gen_link, 'spurious': gen_spurious,
-        'slots': gen_slots}
+        'slots': gen_slots, 'shared': gen_shared}
 
 
 def run(ctx):
@@ -1279,7 +1462,9 @@ def _run(ctx):
                 'grpc-timeout; link: real client <-> real server through a PRNG byte re-cutter with PRNG '
                 'virtual delays. slots: 3..6 calls against a peer allowing 1..3 concurrent streams with 65535-byte '
                 'windows, so that calls wait for a slot / for connection credit that finished or struck calls must '
-                'give back (bursts of unread, partly padded DATA in the same read as the RST_STREAM / before the '
+                'give back; shared: 2..5 concurrent calls created from ONE metadata object (dict / list of pairs / '
+                'MultiDict / CIMultiDict), with SendRequest / SendInitialMetadata / SendTrailingMetadata listeners that '
+                'write a per-call id into event.metadata and await before returning (bursts of unread, partly padded DATA in the same read as the RST_STREAM / before the '
                 'cancel). Every call is re-run alone on a fresh connection. spurious: a sender blocked on an '
                 'exhausted stream window (peer INITIAL_WINDOW_SIZE 16/64/1000, message 100..40000 bytes) is woken '
                 'by PRNG connection-level events / pause / resume / real credit, next to a second call. distinct = distinct '
@@ -1290,7 +1475,7 @@ def _run(ctx):
         check_scenario(ctx, res, scn, pending)
         res.count('corpus')
     n = ctx.n(400, 6000)
-    for end, share in (('client', 1.0), ('server', 1.0), ('link', 0.5), ('slots', 0.5)):
+    for end, share in (('client', 1.0), ('server', 1.0), ('link', 0.5), ('slots', 0.5), ('shared', 0.25)):
         for _ in range(int(n * share)):
             check_scenario(ctx, res, GENS[end](rng), pending)
     for _ in range(n // 2):
